@@ -111,6 +111,9 @@ func genC20(e *emitter, tier string, seed int64) {
 		{"a.p": "x = [1, 2\n"},
 		{"a.p": "add_key(big, 9007199254740993)\nadd_key(fl, 1.5)\nadd_key(b, true)\nadd_key(s, \"q\\\"uote<>&\")\nadd_key(nl, nil)\nadd_key(lst, [1, \"a\"])\n"},
 		{"a.p": "use(\"missing.p\")\n"},
+		// the script is the file's bytes: CR LF inside a multi-line string, a lone CR, tabs, a final line without LF
+		{"a.p": "add_key(ml, '''a\r\nb\r\n''')\r\nadd_key(mlen, len(\"\"\"x\r\ny\"\"\"))\r\nset_tag(crt, '''t\r\n''')"},
+		{"a.p": "use(\"b.ppl\")\n", "b.ppl": "set_measurement('''m\r\nn''')\r\nadd_key(cr, \"a\\rb\")\r"},
 		// the point is left without any field; only tags remain
 		{"a.p": "drop_key(message)\ndrop_key(usage)\ndrop_key(n)\ndrop_key(ok)\ndrop_key(s)\n"},
 		{"a.p": "set_tag(only, \"t\")\ndrop_key(message)\n"},
